@@ -5,6 +5,7 @@ import IceProofs.GatherCyc
 import IceProofs.GatherProv
 import IceProofs.GatherComplete
 import IceProofs.GatherCycReach
+import IceTie.Gather
 /-!
 # C18 — gathering produces exactly the candidates the configuration allows
 
@@ -993,5 +994,63 @@ example : (Cycle.run false { continual := true } [.gather, .start 0, .complete 0
       .restart, .tick 0, .gather, .start 1]).2
     = [.accepted 0 0, .stateSet 0 .gathering, .monitorStarted 0, .regather 0 0, .published 0 0 0, .restarted 1,
        .accepted 1 1, .stateSet 1 .gathering] := by decide
+
+/-! ### code ties (T): the address-class and network-type tests are REGENERATED from net.go / gather.go /
+networktype.go on every run (`IceGen.T_Gather`) and proved equal to the tests the model uses -/
+
+/-- `isSupportedIPv6Partial` (net.go): for EVERY 16-byte address whose bytes lie in the range of its class
+(`IceTie.Gather.Bytes6`: `::/96`, `fe80::/10`, `fec0::/10`, the rest) the Go function returns the model's
+`supported6` — and therefore the IPv6 branch of the model's per-address test `addrAccepted` of `localInterfaces`
+is the Go test -/
+theorem C18_code_supported6 (cfg : Config) (nts : List NetType) (a : Addr) (zeros12 : Bool) (b0 b1 : UInt8)
+    (h : IceTie.Gather.Bytes6 a.cls zeros12 b0 b1) :
+    IceGen.isSupportedIPv6Partial 16 zeros12 b0 b1 = a.cls.supported6 ∧
+    addrAccepted cfg nts a =
+      (!(a.cls.isLoopback && !cfg.includeLoopback)
+       && (if a.cls.is6 then v6Requested nts && IceGen.isSupportedIPv6Partial 16 zeros12 b0 b1 else v4Requested nts)
+       && ipFilterAccepts cfg a) := by
+  have e := IceTie.Gather.isSupportedIPv6Partial_tie a.cls zeros12 b0 b1 h
+  exact ⟨e, by rw [e]; rfl⟩
+
+/-- the location-tracking filter (`shouldFilterLocationTrackedIP`, gather.go; `isIPv6LinkLocal`, addr.go) on the
+`netip` predicates of a class is the model's `isLinkLocal6`; `shouldFilterLocationTracked` applies it to the
+unmapped address of a well-formed slice only -/
+theorem C18_code_location_filter (c : AddrClass) :
+    IceGen.shouldFilterLocationTrackedIP c.is6 (IceTie.Gather.LinkLocalUnicast c) false = c.isLinkLocal6 ∧
+    IceGen.isIPv6LinkLocal c.is6 (IceTie.Gather.LinkLocalUnicast c) false = c.isLinkLocal6 ∧
+    (∀ ok f, IceGen.shouldFilterLocationTracked ok f = (ok && f)) :=
+  ⟨IceTie.Gather.shouldFilterLocationTrackedIP_tie c, IceTie.Gather.isIPv6LinkLocal_tie c,
+   IceTie.Gather.shouldFilterLocationTracked_tie⟩
+
+/-- `hostNetworkTypeEnabled` ∘ `determineNetworkType` ∘ `networkTypeEnabled` (gather.go, networktype.go), composed
+as the code composes them, is the model's `hostNetEnabled` (fixes of G1/G2) for every configured list,
+transport and address -/
+theorem C18_code_host_network_type (nts : List NetType) (tcp : Bool) (a : Addr) :
+    IceGen.hostNetworkTypeEnabled (nts.map IceTie.Gather.code)
+        (IceGen.determineNetworkType (!tcp) tcp (!a.cls.is6)).1 (IceGen.determineNetworkType (!tcp) tcp (!a.cls.is6)).2
+      = hostNetEnabled nts tcp a :=
+  IceTie.Gather.hostNetworkTypeEnabled_tie nts tcp a
+
+/-- `configuredNetworkTypes` (gather.go) with `supportedNetworkTypes` (networktype.go) on a sanitized list is the
+model's `configured` -/
+theorem C18_code_configured_network_types (nts : List NetType) :
+    IceGen.configuredNetworkTypes (nts.eraseDups.map IceTie.Gather.code) = (configured nts).map IceTie.Gather.code :=
+  IceTie.Gather.configuredNetworkTypes_tie nts
+
+/-- non-vacuity: `fec0::1` (site-local) and `::10.1.0.1` are rejected, `2001:db8::1` and `fe80::1` accepted, a 4-byte
+slice rejected; `fe80::1` is location tracked; tcp on an IPv6 address needs tcp6 -/
+example : IceGen.isSupportedIPv6Partial 16 false 0xfe 0xc0 = false ∧ IceGen.isSupportedIPv6Partial 16 true 0 0 = false ∧
+    IceGen.isSupportedIPv6Partial 16 false 0x20 0x01 = true ∧ IceGen.isSupportedIPv6Partial 16 false 0xfe 0x80 = true ∧
+    IceGen.isSupportedIPv6Partial 4 false 10 1 = false := by decide
+example : IceTie.Gather.Bytes6 .s6 false 0xfe 0xd0 ∧ IceTie.Gather.Bytes6 .k6 false 0xfe 0xbf ∧
+    IceTie.Gather.Bytes6 .g6 false 0xfd 0 ∧ IceTie.Gather.Bytes6 .c6 true 0 0 := by
+  simp [IceTie.Gather.Bytes6]
+example : IceGen.shouldFilterLocationTrackedIP true true false = true ∧
+    IceGen.shouldFilterLocationTrackedIP false true false = false := by decide
+example : IceGen.hostNetworkTypeEnabled [1, 3] (IceGen.determineNetworkType false true false).1
+      (IceGen.determineNetworkType false true false).2 = false ∧
+    IceGen.hostNetworkTypeEnabled [1, 4] (IceGen.determineNetworkType false true false).1
+      (IceGen.determineNetworkType false true false).2 = true := by decide
+example : IceGen.configuredNetworkTypes [] = [1, 2, 3, 4] ∧ IceGen.configuredNetworkTypes [3] = [3] := by decide
 
 end IceProps.C18
